@@ -64,6 +64,7 @@ inline std::vector<std::pair<std::string, Topo>> named_families() {
   v.push_back({"pillow", {{0, 1, 2}, {0, 2, 1}}});
   v.push_back({"fan4", {{0, 1, 2}, {0, 2, 3}, {0, 3, 4}, {0, 4, 1}}});
   v.push_back({"strip4", {{0, 1, 2}, {2, 1, 3}, {2, 3, 4}, {4, 3, 0}}});
+  v.push_back({"two_pillows", {{0, 1, 2}, {0, 2, 1}, {3, 4, 5}, {3, 5, 4}}});  // two closed components
   return v;
 }
 
@@ -179,6 +180,45 @@ inline GeomDef s2_mesh(const Topo &t, uint32_t bits, bool dedup_points, PosKind 
   }
   g.atts.push_back(pos);
   g.atts.push_back(sa);
+  return g;
+}
+
+// S2b: two non-position attributes, each taking one of two values per corner
+// (bits1 / bits2), so that the seams of the two attributes differ.
+inline GeomDef s2b_mesh(const Topo &t, uint32_t bits1, uint32_t bits2, PosKind pkind, SeamAttKind k1, SeamAttKind k2) {
+  GeomDef g;
+  g.is_mesh = true;
+  struct P { int vid, a, b; };
+  std::vector<P> pts;
+  for (size_t f = 0; f < t.size(); ++f) {
+    std::array<int, 3> face;
+    for (int k = 0; k < 3; ++k) {
+      const int vid = t[f][k];
+      const int a = (bits1 >> (3 * f + k)) & 1, b = (bits2 >> (3 * f + k)) & 1;
+      int pid = -1;
+      for (size_t i = 0; i < pts.size(); ++i)
+        if (pts[i].vid == vid && pts[i].a == a && pts[i].b == b) pid = (int)i;
+      if (pid < 0) {
+        pid = (int)pts.size();
+        pts.push_back({vid, a, b});
+      }
+      face[k] = pid;
+    }
+    g.faces.push_back(face);
+  }
+  g.num_points = (int)pts.size();
+  const int k = num_ids(t);
+  std::vector<int> ev(k);
+  for (int i = 0; i < k; ++i) ev[i] = i;
+  AttDef pos = position_att(k, pkind, ev);
+  AttDef a1 = seam_att(k1), a2 = seam_att(k2);
+  a2.uid = 2;
+  for (auto &p : pts) {
+    pos.map.push_back(p.vid);
+    a1.map.push_back(p.a);
+    a2.map.push_back(p.b);
+  }
+  g.atts = {pos, a1, a2};
   return g;
 }
 
